@@ -7,6 +7,7 @@ from fractions import Fraction
 
 from ..core import frac
 from .. import c03_outlier as _outl
+from .. import c03_baf as _baf
 
 LEVEL = "proof"
 RULE = ("bin tables of 1..6 chromosomes (incl. X/Y) x 1..400 bins, optional centromere-sized gap (also at the two extreme "
@@ -198,6 +199,14 @@ def gen_cases(rng, tier):
     orng.setstate(frng.getstate())
     for k in range(max(30, n // 4)):
         cases.append(_outl.gen_case(orng, k))
+    # round 5b: the BAF column of the `variants=` branch (op seg_baf, harness/c03_baf.py; a separate stream again)
+    brng = random.Random()
+    brng.setstate(orng.getstate())
+    for k in range(max(24, n // 5)):
+        cases.append(_baf.gen_case(brng, k))
+    import os
+    if os.environ.get("VERIF_C03_ONLY"):  # development / mutation runs: one op only (never set by ./check itself)
+        cases = [c for c in cases if c["op"] == os.environ["VERIF_C03_ONLY"]]
     return cases
 
 
@@ -635,6 +644,8 @@ def _tf_judge(case, impl, resp):
 
 
 def run_impl(case):
+    if case["op"] == "seg_baf":
+        return _baf.run_impl(case)
     if case["op"] == "outlier":
         return _outl.run_impl(case)
     if case["op"] == "transfer":
@@ -708,6 +719,8 @@ def _runs(segs, units_bins, keeps):
 
 
 def to_line(case, impl):
+    if case["op"] == "seg_baf":
+        return _baf.to_line(case, impl)
     if case["op"] == "outlier":
         return _outl.to_line(case, impl)
     if case["op"] == "transfer":
@@ -738,6 +751,8 @@ def _close(a, b):
 
 
 def judge(case, impl, resp):
+    if case["op"] == "seg_baf":
+        return _baf.judge(case, impl, resp)
     if case["op"] == "outlier":
         return _outl.judge(case, impl, resp)
     if case["op"] == "transfer":
@@ -773,6 +788,8 @@ def judge(case, impl, resp):
 
 
 def nontrivial(case, impl, resp):
+    if case["op"] == "seg_baf":
+        return _baf.nontrivial(case, impl, resp)
     if case["op"] == "outlier":
         return _outl.nontrivial(case, impl, resp)
     if isinstance(impl, dict) and "__error__" in impl:
@@ -785,6 +802,9 @@ def nontrivial(case, impl, resp):
 
 
 def shrink(case):
+    if case["op"] == "seg_baf":
+        yield from _baf.shrink(case)
+        return
     if case["op"] == "outlier":
         yield from _outl.shrink(case)
         return
